@@ -251,6 +251,7 @@ def main():
     acc = dict(evaluations=0, skipped=0, world_runs=0, nontrivial=set(), hist={}, samples={}, extra={})
     failures = []
     errors = []
+    nt_extra = 0
 
     # 2. replay tier
     replays = sorted(glob.glob(os.path.join(VERIF, "replays", pid, "*.json")))
@@ -297,6 +298,7 @@ def main():
             for k, v in cres.get("extra", {}).items():
                 acc["extra"][k] = v
             acc["evaluations"] += cres.get("evaluations", 0)
+            nt_extra += cres.get("nontrivial_extra", 0)
             for f in cres.get("failures", []):
                 failures.append(f)
         except Exception:
@@ -322,13 +324,16 @@ def main():
                 path = f["artifact"]
             else:
                 path = write_replay(pid, f)
+        tries, need = getattr(P, "REPLAY_TRIES", 3), getattr(P, "REPLAY_NEED", 3)
         ok3 = 0
-        for _ in range(3):
+        for _ in range(tries):
             r = replay_file(P, path, W)
             if r.violation:
                 ok3 += 1
-        if ok3 != 3:
-            errors.append("failure does not replay deterministically (%d/3): %s\n%s" % (ok3, path, f["text"][:1000]))
+            if ok3 >= need:
+                break
+        if ok3 < need:
+            errors.append("failure does not replay (%d/%d, needed %d): %s\n%s" % (ok3, tries, need, path, f["text"][:1000]))
             continue
         sig = f["sig"]
         k = [kl for (kp, ks, kl) in known if kp == pid and ks == sig]
@@ -348,7 +353,7 @@ def main():
             lines.append("KNOWN-FINDING: property=%s %s" % (pid, kl.split(" ", 3)[-1]))
 
     # vacuity guard
-    nt = len(acc["nontrivial"])
+    nt = len(acc["nontrivial"]) + nt_extra
     floor = P.MIN_NONTRIVIAL.get(a.tier, 2) if a.cases is None else 2
     if errors:
         for e in errors:
